@@ -8,7 +8,7 @@ ranges); any other loop makes the function UNDECIDED. Equality of normalised ter
 decision — no solver, and nothing is executed."""
 import math
 
-MAXSTEPS = 60000
+MAXSTEPS = 400000
 
 
 class Undecided(Exception):
@@ -388,6 +388,7 @@ class Evaluator:
         self._joins = {}
         self._jid = 0
         self._discr_src = {}
+        self._memo = {}
         self.summarize_loops = False   # when set, an inner loop is replaced by a havoc of the locals it assigns
         self.no_skip = set()            # loop heads that must be entered rather than summarised
 
@@ -396,6 +397,8 @@ class Evaluator:
         fn = self.prog.fn(path) if isinstance(path, str) else path
         if fn is None:
             raise Undecided("no MIR for " + str(path))
+        if depth == 0:
+            self.steps = 0
         if depth > self.inline_depth:
             raise Undecided("inline depth exceeded at " + fn.path)
         if len(args) != fn.arg_count:
@@ -624,6 +627,37 @@ class Evaluator:
             self.steps += 1
             if self.steps > MAXSTEPS:
                 raise Undecided("step budget exceeded in " + fn.path)
+            mkey = None
+            if len(fn.pred_map()[bb]) > 1 and self.stop is None:
+                # blocks reachable along several paths: reuse the result for an identical live environment
+                live = fn.live_in()[bb]
+                try:
+                    mkey = (fn.path, bb, until, depth, visits.get(bb, 0), tuple((l, env.get(l)) for l in sorted(live)))
+                    hit = self._memo.get(mkey)
+                except TypeError:
+                    mkey, hit = None, None
+                if hit is not None:
+                    return hit
+                r = self._run_from(fn, bb, env, visits, depth, until)
+                if mkey is not None:
+                    self._memo[mkey] = r
+                return r
+            return self._run_from(fn, bb, env, visits, depth, until)
+
+    def _run_from(self, fn, bb, env, visits, depth, until):
+        first = True
+        while True:
+            if not first:
+                if until is not None and bb == until:
+                    self._jid += 1
+                    self._joins[self._jid] = (env, visits)
+                    return ("@join", self._jid)
+                if len(fn.pred_map()[bb]) > 1 and self.stop is None:
+                    return self._run(fn, bb, env, visits, depth, until)
+                self.steps += 1
+                if self.steps > MAXSTEPS:
+                    raise Undecided("step budget exceeded in " + fn.path)
+            first = False
             if self.stop is not None and fn.path == self.stop[0]:
                 if bb == self.stop[1] and visits.get(bb, 0) >= 1:
                     return ("next", tuple(env.get(l, ("uninit",)) for l in self.stop[3]))
@@ -759,15 +793,13 @@ class Evaluator:
                 else:
                     merged[l] = map_leaves(tree, lambda leaf, vals=vals: vals[leaf[1]])
             v2 = self._joins[jl[0][1]][1]
-            for x in jl:
-                self._joins.pop(x[1], None)
             return self._run(fn, join, merged, v2, depth, until)
         # mixed: continue every arm that reached the join separately
 
         def cont(leaf):
             if isinstance(leaf, tuple) and leaf and leaf[0] == "@join":
-                e, v = self._joins.pop(leaf[1])
-                return self._run(fn, join, e, v, depth, until)
+                e, v = self._joins[leaf[1]]
+                return self._run(fn, join, dict(e), v, depth, until)
             return leaf
         return map_leaves(tree, cont)
 
@@ -1132,6 +1164,9 @@ def _collect(ev, it, d):
         elif cur[0] == "ifiltermap":
             ops.append(("filtermap", cur[2]))
             cur = cur[1]
+        elif cur[0] == "iop":
+            ops.append((cur[1], cur[3]))
+            cur = cur[2]
         elif cur[0] == "iter":
             src = cur[1]
             break
@@ -1145,6 +1180,12 @@ def _collect(ev, it, d):
     for kind, clo in ops:
         if kind == "map":
             body = ev.apply_closure(clo, [body], d)
+        elif kind not in ("filter", "filtermap"):
+            # any other adaptor (take_while, skip, rev, take, ...) is recorded by name with its argument
+            arg = clo
+            if isinstance(clo, tuple) and clo and clo[0] == "closure":
+                arg = ev.apply_closure(clo, [body], d)
+            out.append((kind, body, arg))
         else:
             out.append((kind, body, ev.apply_closure(clo, [body if kind == "filtermap" else body], d)))
             if kind == "filtermap":
@@ -1170,6 +1211,12 @@ def _m_contains(ev, a, t, d):
 
 def _m_rangeinc_new(ev, a, t, d):
     return adt("core::ops::range::RangeInclusive", "RangeInclusive", (("start", a[0]), ("end", a[1])))
+
+
+def _m_iop(name):
+    def f(ev, a, t, d):
+        return ("iop", name, a[0], a[1] if len(a) > 1 else UNIT)
+    return f
 
 
 DEFAULT_MODELS = {
@@ -1231,6 +1278,9 @@ DEFAULT_MODELS = {
     "core::ops::range::RangeInclusive::<Idx>::contains": _m_contains,
     "core::ops::range::RangeInclusive::<Idx>::new": _m_rangeinc_new,
 }
+for _n in ("take_while", "skip_while", "skip", "take", "step_by", "map_while", "inspect", "scan", "flat_map", "chain", "zip"):
+    DEFAULT_MODELS["core::iter::traits::iterator::Iterator::" + _n] = _m_iop(_n)
+DEFAULT_MODELS["core::iter::traits::iterator::Iterator::rev"] = _m_iop("rev")
 for _ty in ("u16", "u32", "i32", "u64", "i16"):
     DEFAULT_MODELS["core::num::<impl %s>::from_be_bytes" % _ty] = (lambda ty: (lambda ev, a, t, d: ("be", a[0], ty)))(_ty)
 
